@@ -49,12 +49,112 @@ ENUMS = {   # python enum class name -> (lean type, {member: ctor})
     "TCPMatchType": ("MatchType", {"EXACT": "exact", "FUZZY_TTL": "fuzzyTtl", "FUZZY_QUIRKS": "fuzzyQuirks"}),
     "WindowType": ("WinType", {"NORMAL": "normal", "ANY": "any", "MOD": "mod", "MSS": "mss", "MTU": "mtu"}),
     "Direction": ("Dir", {"CLIENT_TO_SERVER": "req", "SERVER_TO_CLIENT": "resp"}),
+    "ParserState": ("PState", {"NEED_SECTION": "needSection", "NEED_LABEL": "needLabel", "NEED_SYS": "needSys", "NEED_SIG": "needSig"}),
 }
 
 
 CLASS_CONSTS = {   # python classes that only occur as tags -> lean enum constructors
     "MTURecord": ("RecKind.mtu", "Enum:RecKind"), "TCPRecord": ("RecKind.tcp", "Enum:RecKind"), "HTTPRecord": ("RecKind.http", "Enum:RecKind"),
 }
+
+
+def flat_with(stmts):
+    """statement list with every `with` statement replaced by its body (for the control-flow / assignment analyses)"""
+    out = []
+    for st in stmts:
+        if isinstance(st, ast.With):
+            out.extend(flat_with(st.body))
+        else:
+            out.append(st)
+    return out
+
+
+class Desugar(ast.NodeTransformer):
+    """source-level rewriting done before translation, for targets that ask for it (`desugar=True`); each step preserves the
+    meaning of side-effect free code:
+      * `for n, x in enumerate(xs, start=k): B`   =>   `n_next = k; for x in xs: n = n_next; n_next += 1; B`
+      * `if A or X is None: B` with B leaving (raise / return / continue)   =>   `if X is None: B` then `if A: B`
+        (so that X is known to be an object afterwards)
+      * the mutating calls named by the target (`database.create(a, b)`)   =>   `database = %mut%database.create(a, b)`
+      * the attribute stores named by the target (`label.sys = v`)   =>   `label = %set%label.sys(v)`"""
+
+    def __init__(self, t):
+        self.t = t
+
+    def stmts(self, body):
+        out = []
+        for st in body:
+            r = self.visit(st)
+            out.extend(r if isinstance(r, list) else [r])
+        return out
+
+    def visit_FunctionDef(self, node):
+        return node
+
+    def generic_body(self, node):
+        for f in ("body", "orelse"):
+            if hasattr(node, f):
+                setattr(node, f, self.stmts(getattr(node, f)))
+        return node
+
+    def visit_With(self, node):
+        return self.generic_body(node)
+
+    def visit_While(self, node):
+        return self.generic_body(node)
+
+    def visit_Try(self, node):
+        return node
+
+    def visit_For(self, node):
+        node = self.generic_body(node)
+        it = node.iter
+        if (isinstance(it, ast.Call) and dotted(it.func) == "enumerate" and len(it.args) == 1
+                and isinstance(node.target, ast.Tuple) and len(node.target.elts) == 2 and all(isinstance(x, ast.Name) for x in node.target.elts)
+                and all(k.arg == "start" for k in it.keywords) and not node.orelse):
+            n, x = node.target.elts
+            start = it.keywords[0].value if it.keywords else ast.Constant(value=0)
+            cnt = n.id + "_next"
+            head = [ast.Assign(targets=[ast.Name(id=n.id, ctx=ast.Store())], value=ast.Name(id=cnt, ctx=ast.Load())),
+                    ast.AugAssign(target=ast.Name(id=cnt, ctx=ast.Store()), op=ast.Add(), value=ast.Constant(value=1))]
+            loop = ast.For(target=ast.Name(id=x.id, ctx=ast.Store()), iter=it.args[0], body=head + node.body, orelse=[])
+            return [ast.Assign(targets=[ast.Name(id=cnt, ctx=ast.Store())], value=start), loop]
+        return node
+
+    def visit_If(self, node):
+        node = self.generic_body(node)
+        tt = node.test
+        if isinstance(tt, ast.BoolOp) and isinstance(tt.op, ast.Or) and not node.orelse and not Fn.falls(node.body):
+            def is_none_test(v):
+                return (isinstance(v, ast.Compare) and len(v.ops) == 1 and isinstance(v.ops[0], ast.Is) and isinstance(v.left, ast.Name)
+                        and isinstance(v.comparators[0], ast.Constant) and v.comparators[0].value is None)
+            nones = [v for v in tt.values if is_none_test(v)]
+            others = [v for v in tt.values if not is_none_test(v)]
+            pure = all(not isinstance(n, ast.Call) or dotted(n.func) == "isinstance" for v in others for n in ast.walk(v))
+            if nones and pure:
+                out = [ast.If(test=v, body=node.body, orelse=[]) for v in nones]
+                if others:
+                    test = others[0] if len(others) == 1 else ast.BoolOp(op=ast.Or(), values=others)
+                    out.append(ast.If(test=test, body=node.body, orelse=[]))
+                return out
+        return node
+
+    def visit_Expr(self, node):
+        c = node.value
+        if isinstance(c, ast.Call):
+            f = dotted(c.func)
+            if f in self.t.get("mutators", {}):
+                return ast.Assign(targets=[ast.Name(id=self.t["mutators"][f], ctx=ast.Store())],
+                                  value=ast.Call(func=ast.Name(id="%mut%" + f, ctx=ast.Load()), args=c.args, keywords=c.keywords))
+        return node
+
+    def visit_Assign(self, node):
+        if len(node.targets) == 1:
+            d = dotted(node.targets[0])
+            if isinstance(node.targets[0], ast.Attribute) and d in self.t.get("attr_setters", {}):
+                return ast.Assign(targets=[ast.Name(id=self.t["attr_setters"][d], ctx=ast.Store())],
+                                  value=ast.Call(func=ast.Name(id="%set%" + d, ctx=ast.Load()), args=[node.value], keywords=[]))
+        return node
 
 
 def is_int_ty(t):
@@ -71,6 +171,11 @@ def const_to_lean(val):
         return ("true" if val else "false", "Bool")
     if isinstance(val, enum.Flag) and not isinstance(val, int):
         cls = type(val).__name__
+        if cls in ENUMS:
+            # a Flag class used as a plain enumeration: only its single members have a Lean constructor
+            if val.name not in ENUMS[cls][1]:
+                raise NotTranslatable(f"flag combination {val!r}")
+            return (f"{ENUMS[cls][0]}.{ENUMS[cls][1][val.name]}", "Enum:" + ENUMS[cls][0])
         if cls != "Quirk":
             raise NotTranslatable(f"Flag class {cls}")
         bits = [i for i in range(val.value.bit_length()) if val.value >> i & 1]
@@ -96,9 +201,10 @@ def const_to_lean(val):
     if isinstance(val, type) and val.__name__ in CLASS_CONSTS:
         return CLASS_CONSTS[val.__name__]
     if isinstance(val, str):
-        if any(ord(ch) > 126 or ord(ch) < 32 or ch in '"\\' for ch in val):
+        if any((ord(ch) > 126 or ord(ch) < 32) and ch not in "\n\t\r" for ch in val):
             raise NotTranslatable("string constant outside printable ASCII")
-        return (f'("{val}".toList)', "Str")
+        esc = {'"': '\\"', "\\": "\\\\", "\n": "\\n", "\t": "\\t", "\r": "\\r"}
+        return ('("' + "".join(esc.get(ch, ch) for ch in val) + '".toList)', "Str")
     if isinstance(val, tuple):
         parts = [const_to_lean(v) for v in val]
         return ("[" + ", ".join(p[0] for p in parts) + "]", "List:" + (parts[0][1] if parts else "_"))
@@ -311,6 +417,26 @@ class Fn:
                     keys = sorted(self.glob[dn].keys(), key=lambda x: int(x))
                     alts = [self.compare(ast.Eq(), left, const_to_lean(k)) for k in keys]
                     c = "(" + " || ".join(alts) + ")" if alts else "false"
+                    parts.append(c if isinstance(op, ast.In) else f"(!{c})")
+                    left = None
+                    continue
+                if isinstance(op, (ast.In, ast.NotIn)) and dn is not None and dn not in env and isinstance(self.glob.get(dn), (set, frozenset)):
+                    vals_ = self.glob[dn]
+                    if not all(isinstance(v_, str) for v_ in vals_):
+                        raise NotTranslatable("membership in a set of non-strings")
+                    alts = [self.compare(ast.Eq(), left, const_to_lean(k)) for k in sorted(vals_)]
+                    c = "(" + " || ".join(alts) + ")" if alts else "false"
+                    parts.append(c if isinstance(op, ast.In) else f"(!{c})")
+                    left = None
+                    continue
+                if isinstance(op, (ast.In, ast.NotIn)) and isinstance(rn, ast.BinOp) and isinstance(rn.op, ast.BitOr):
+                    # `x in (A | B)` on a Flag used as an enumeration (x is a single member: its Lean type has no combinations)
+                    def flat(n):
+                        return flat(n.left) + flat(n.right) if isinstance(n, ast.BinOp) and isinstance(n.op, ast.BitOr) else [n]
+                    members = [self.expr(x, env) for x in flat(rn)]
+                    if not (left[1].startswith("Enum:") and all(m_[1] == left[1] for m_ in members)):
+                        raise NotTranslatable("membership in a flag combination of another type")
+                    c = "(" + " || ".join(self.compare(ast.Eq(), left, m_) for m_ in members) + ")"
                     parts.append(c if isinstance(op, ast.In) else f"(!{c})")
                     left = None
                     continue
@@ -780,6 +906,13 @@ class Fn:
             recv_node = node.func.value
             meth = node.func.attr
             rd = dotted(recv_node)
+            if meth == "strip" and not args and not kw:
+                try:
+                    re_, rt = self.expr(recv_node, env)
+                except NotTranslatable:
+                    re_, rt = None, None
+                if rt == "Str":
+                    return (f"(strip {par(re_)})", "Str")
             if meth in ("endswith", "startswith", "partition", "split", "get", "join", "format"):
                 try:
                     re_, rt = self.expr(recv_node, env)
@@ -950,6 +1083,10 @@ class Fn:
             self.div_sites.append(ast.unparse(node))
             ai, bi = as_int(*l), as_int(*r)
             return (f"((Int.fdiv {par(ai)} {par(bi)}), (Int.fmod {par(ai)} {par(bi)}))", "Tuple:Int,Int")
+        if fname == "tuple" and len(args) == 1 and not kw:
+            e, t = self.expr(args[0], env)
+            if t.startswith("List:"):
+                return (e, t)          # an immutable copy of a list value: the same value
         if fname == "bool" and len(args) == 1:
             return (self.cond(args[0], env), "Bool")
         if fname == "len" and len(args) == 1:
@@ -1153,6 +1290,8 @@ class Fn:
             if t.startswith("Opt:"):
                 return e
             return f"(some {e})"
+        if want.startswith("Exc:"):
+            return f"(Except.ok {par(self.coerce_val(e, t, want[4:]))})"
         if want == "Int" and is_int_ty(t):
             return as_int(e, t)
         if want == "Bool" and t != "Bool":
@@ -1184,7 +1323,10 @@ class Fn:
                 raise NotTranslatable(f"raise {exc}")
             if hasattr(self, "ret_types"):
                 self.ret_types.append("Opt:_")
-            return pad + self.wrap_ret(m[exc])
+            out_ = m[exc]
+            if callable(out_):
+                out_ = out_(self, s.exc, env)
+            return pad + self.wrap_ret(out_)
         if isinstance(s, ast.FunctionDef):
             if s.decorator_list or s.args.vararg or s.args.kwarg or s.args.kwonlyargs:
                 raise NotTranslatable("nested def outside the fragment")
@@ -1267,8 +1409,10 @@ class Fn:
                 if isinstance(s.op, ast.BitAnd) and isinstance(val, ast.UnaryOp) and isinstance(val.op, ast.Invert):
                     cb = self.clear_bits(env[name], self.expr(val.operand, env))
                 e, t = cb if cb is not None else self.binop(s.op, env[name], (e, t), None)
-            if isinstance(s, ast.AnnAssign) and t == "Opt:_":
+            if t == "Opt:_":
                 t = self.t.get("opt_types", {}).get(name, t)
+                if t != "Opt:_":
+                    e = f"({e} : {self.lean_ty(t)})"
             if isinstance(s, ast.AnnAssign) and t == "List:_":
                 t = self.t.get("list_types", {}).get(name, t)
             if t.startswith(("Unpacked:", "StructOf:")):
@@ -1341,6 +1485,31 @@ class Fn:
             raise NotTranslatable(f"expression statement {ast.unparse(s)[:60]}")
         if isinstance(s, ast.If):
             return self.if_stmt(s, rest, env, cont, ind)
+        if isinstance(s, ast.With):
+            w = self.t.get("with_wrappers", {})
+            ok = (len(s.items) == 1 and s.items[0].optional_vars is None and isinstance(s.items[0].context_expr, ast.Call)
+                  and dotted(s.items[0].context_expr.func) in w)
+            if not ok:
+                raise NotTranslatable("with statement other than a registered exception wrapper")
+            # the wrapper turns the exceptions of its body into its own error: calls that may raise, made inside the body, leave
+            # the function with that error; the statements after the `with` are outside again
+            err = w[dotted(s.items[0].context_expr.func)](self, s.items[0].context_expr, env)
+            if not hasattr(self, "err_stack"):
+                self.err_stack = []
+            st_ = self.err_stack
+            st_.append(err)
+
+            def after_with(env2, ind2):
+                saved_ = list(st_)
+                st_.pop()
+                try:
+                    return self.block(rest, env2, cont, ind2)
+                finally:
+                    st_[:] = saved_
+            try:
+                return self.block(list(s.body), env, after_with, ind)
+            finally:
+                st_.pop()
         if isinstance(s, ast.Try):
             m = self.t.get("raises", {})
             ok = (not s.orelse and not s.finalbody and len(s.handlers) == 1 and s.handlers[0].type is not None
@@ -1368,7 +1537,7 @@ class Fn:
     @staticmethod
     def falls(stmts):
         """can control fall off the end of this statement list?"""
-        for st in stmts:
+        for st in flat_with(stmts):
             if isinstance(st, (ast.Return, ast.Raise, ast.Continue, ast.Break)):
                 return False
             if isinstance(st, ast.If) and not (Fn.falls(st.body) or Fn.falls(st.orelse)):
@@ -1379,7 +1548,7 @@ class Fn:
     def fall_leaves(stmts):
         """number of distinct fall-through paths (what inlining the continuation would duplicate)"""
         n = 1
-        for st in stmts:
+        for st in flat_with(stmts):
             if isinstance(st, (ast.Return, ast.Raise, ast.Continue, ast.Break)):
                 return 0
             if isinstance(st, ast.If):
@@ -1400,7 +1569,7 @@ class Fn:
         out = []
 
         def visit(sts, local_helpers):
-            for st in sts:
+            for st in flat_with(sts):
                 if isinstance(st, (ast.Assign, ast.AugAssign, ast.AnnAssign)):
                     tgs = st.targets if isinstance(st, ast.Assign) else [st.target]
                     for tg in tgs:
@@ -1438,6 +1607,8 @@ class Fn:
             return base[t]
         if t.startswith("Opt:"):
             return f"Option {par(self.lean_ty(t[4:]))}"
+        if t.startswith("Exc:"):
+            return f"Except {self.t['err_ty']} {par(self.lean_ty(t[4:]))}"
         if t.startswith("Enum:"):
             return t[5:]
         if t.startswith("Rec:"):
@@ -1484,6 +1655,13 @@ class Fn:
         raise NotTranslatable(f"cannot convert {t} to {want}")
 
     def none_value(self):
+        """how an exception of a called function leaves the current function: `none` for Option targets; for `Except` targets the
+        error of the innermost enclosing wrapper (`with parsing_error_wrapper(n):`), else the target's default error"""
+        st = getattr(self, "err_stack", None)
+        if st:
+            return st[-1]
+        if "err_default" in self.t:
+            return self.t["err_default"]
         return "none"
 
     def raising(self, call_text, t):
@@ -1533,7 +1711,7 @@ class Fn:
         def top_assigned(stmts):
             """names definitely assigned when control falls off the end of `stmts`"""
             out = set()
-            for st in stmts:
+            for st in flat_with(stmts):
                 if isinstance(st, (ast.Assign, ast.AugAssign, ast.AnnAssign)):
                     tgs = st.targets if isinstance(st, ast.Assign) else [st.target]
                     for tg in tgs:
@@ -1689,11 +1867,14 @@ class Fn:
         for n in ast.walk(ast.Module(body=s.body, type_ignores=[])):
             if isinstance(n, (ast.Assign, ast.AugAssign, ast.AnnAssign)):
                 tg = n.targets[0] if isinstance(n, ast.Assign) else n.target
-                d = dotted(tg)
-                if d in env and d not in assigned:
-                    assigned.append(d)
+                for tg1 in (tg.elts if isinstance(tg, ast.Tuple) else [tg]):
+                    d = dotted(tg1)
+                    if d in env and d not in assigned:
+                        assigned.append(d)
             if isinstance(n, ast.For) and n is not s:
                 raise NotTranslatable("nested for loop")
+        if self.t.get("sort_carried"):
+            assigned.sort()          # the signature of the auxiliary definition does not depend on the order of the assignments
         def direct_break(stmts):
             for st in stmts:
                 if isinstance(st, ast.Break):
@@ -1727,7 +1908,12 @@ class Fn:
                 env_c[n] = (x + ".2" * i + (".1" if i < len(tys) - 1 else ""), ty)
 
         def again(env3, ind3):
-            return "  " * ind3 + self.wrap_ret(f"({aux} {pnames} xs " + " ".join(par(env3[v][0]) for v in assigned) + ")")
+            def back(v, ty):
+                e3, t3 = env3[v]
+                if t3 != ty and ty == "Opt:" + t3:
+                    return f"(some {e3})"          # narrowed by an `is None` test inside the body
+                return e3
+            return "  " * ind3 + self.wrap_ret(f"({aux} {pnames} xs " + " ".join(par(back(v, ty)) for v, (_, ty) in zip(assigned, carried)) + ")")
 
         saved_cont = self.loop_cont if hasattr(self, "loop_cont") else None
         saved_depth, saved_ret = self.join_depth, getattr(self, "cur_ret", None)
@@ -1837,13 +2023,19 @@ class Fn:
         env = dict(self.t["env"])
 
         def end(env2, ind2):
-            if self.t["ret"].startswith("Opt:"):
+            if self.t["ret"].startswith("Opt:") and "end" not in self.t:
                 return "  " * ind2 + "none"
             if "end" in self.t:
                 return "  " * ind2 + self.t["end"](self, env2)
             raise NotTranslatable("function end without return")
         end.cheap = True
-        body = self.block(self.pre(list(f.body)), env, end, 1)
+        stmts = list(f.body)
+        if self.t.get("desugar"):
+            import copy
+            stmts = Desugar(self.t).stmts(copy.deepcopy(stmts))
+            for st in stmts:
+                ast.fix_missing_locations(st)
+        body = self.block(self.pre(stmts), env, end, 1)
         return body
 
     def pre(self, stmts):
